@@ -33,6 +33,7 @@ def add(e, d):
 class G:
     def __init__(self, rng):
         self.r = rng
+        self.calls = False
 
     # ---------------------------------------------------------------- loop headers
     def header(self, allow_neg=True, avoid=()):
@@ -134,6 +135,9 @@ class G:
             out.append(("assign", r.choice(scal), [], self.expr(vs, arrs1, arrs2, [], 1, consistent)))
         for _ in range(n):
             c = r.random()
+            if self.calls and r.random() < 0.10:
+                out.append(self.call(vs, arrs1, arrs2, scal, consistent))
+                continue
             if c < ctrl:
                 out.append(("if", self.cond(vs, arrs1, arrs2, scal, consistent), [(r.choice(["exit", "cycle", "return", "exit"]),)], []))
             elif c < ctrl + 0.62:
@@ -152,6 +156,23 @@ class G:
                 t = self.aref(vs, arrs1, arrs2, consistent)
                 out.append(("assign", t[1], t[2], self.expr(vs, arrs1, arrs2, scal, 1, consistent)))
         return out
+
+    def call(self, vs, arrs1, arrs2, scal, consistent=None):
+        """a call of a module routine (bump, setv) or of the external opaque routine ext; by-reference arguments"""
+        r = self.r
+
+        def ref():
+            if scal and r.random() < 0.5:
+                return V(r.choice(list(scal)))
+            if arrs1 or arrs2:
+                return self.aref(vs, arrs1, arrs2, consistent)
+            return V(r.choice(SCAL))
+        c = r.random()
+        if c < 0.45:
+            return ("call", "bump", [ref()])
+        if c < 0.75:
+            return ("call", "setv", [ref(), self.expr(vs, arrs1, arrs2, scal, 1, consistent)])
+        return ("call", "ext", [ref()])
 
     def simple(self):
         r = self.r
@@ -291,6 +312,8 @@ class G:
                 inv.append(("assign", r.choice(scal), [], self.expr([v], arrs1, [], scal, 1)))
         for s in inv:
             body.insert(r.randint(0, len(body)) if r.random() < 0.5 else 0, s)
+        if self.calls and r.random() < 0.5:
+            body.insert(r.randint(0, len(body)), ("call", r.choice(["bump", "ext"]), [r.choice([V(scal[0]), V(scal[1]), ("idx", arrs1[0], [V(v)])])]))
         loop = ("do", v, lo, hi, st, body)
         if r.random() < 0.2:
             lo2, hi2, st2 = self.header()
@@ -344,6 +367,11 @@ class G:
         for _ in range(r.randint(1, 2)):
             body.append(("assign", arrs1[0], [r.choice([V(ind[0]), V(v), add(V(v), 1)])],
                          self.expr([v], arrs1[1:], [], ind, 1)))
+        if self.calls and r.random() < 0.5:
+            body.insert(r.randint(1, len(body)), ("call", r.choice(["bump", "ext", "bump"]),
+                                                  [r.choice([V(ind[0]), V(ind[0]), ("idx", arrs1[1], [V(v)])])] ))
+            if body[-1][0] == "call" and body[-1][1] == "setv":
+                pass
         c = r.random()
         if c < 0.15:
             body.insert(r.randint(0, len(body)), ("if", self.cond([v], arrs1[1:], [], []), [(r.choice(["exit", "cycle", "return"]),)], []))
@@ -375,11 +403,14 @@ class G:
                 lo, hi, st = self.header()
                 out.append(("do", "i", lo, hi, st, [("assign", "a", [V("i")], self.expr(["i"], ARR1, [], SCAL, 1)),
                                                     ("if", self.cond(["i"], ARR1, [], []), [("return",)], [])]))
+            elif self.calls and r.random() < 0.4:
+                out.append(self.call([], ARR1, [], SCAL))
             else:
                 out.append(self.simple())
         return out
 
     def program(self, kind):
+        self.calls = self.r.random() < 0.3
         return {"fuse": self.fuse_prog, "fusei": self.indep_fuse_prog, "nest": self.nest_prog,
                 "nestp": lambda: self.nest_prog(True), "chunk": self.chunk_prog, "hoist": self.hoist_prog,
                 "hoistbound": self.hoistbound_prog, "induction": self.induction_prog, "fold": self.fold_prog}[kind]()
